@@ -563,6 +563,134 @@ def main():
         res.fail("point location: element not adjacent to the nearest node", f"two flat triangles (0,0)-(8,0)-(4,0.5) and (0,0)-(4,-0.3)-(8,0): the point (4, 0.05) lies in the first one but its nearest node (4,-0.3) belongs to the second only: "
                  f"Evaluate_dofsValues_at_coordinates returns {gotw} instead of 8.85", dict(mesh="two flat TRI3", point=[4, 0.05, 0.0]))
 
+    # ---------------- a mesh that has already been used, then moved out of its plane / off its line ----------------
+    # "before and after the mesh is moved, also for surface elements embedded in 3D": a planar mesh (or a mesh on the x axis) is
+    # used once (measure, centre, normals or a point evaluation), then taken into 3D by a chain of Translate / Rotate / Symmetry
+    # with out-of-plane components. After EVERY step the measure, centre, normals and located-point evaluation of polynomials of
+    # the element order are compared with the closed forms, and weighted Jacobians / Gauss points / normals of every element
+    # group with a FRESH mesh built directly from the final coordinates (same connectivity, never used before).
+    def fresh_of(m):
+        Xf = np.array(m.coord, float)
+        return Mesh({g.elemType: GroupElemFactory.Create(g.elemType, np.array(g.connect), Xf) for g in m.dict_groupElem.values()})
+
+    def first_use(m, how, dim_):
+        g0 = m.Get_list_groupElem(dim_)[0]
+        if how == "measure and center":
+            _ = (m.area if dim_ == 2 else m.length), m.center
+        elif how == "normals":
+            for gg in m.dict_groupElem.values():
+                if 1 <= gg.dim <= 2:
+                    gg.Get_normals_e_pg("mass")
+                    gg.Get_weightedJacobian_e_pg("mass")
+        elif how == "point evaluation":
+            m.Evaluate_dofsValues_at_coordinates(m.coord[g0.connect[0]][:g0.Nvertex].mean(0)[None, :], np.array(m.coord[:, 0]))
+
+    def chains(dim_):
+        c = (rng.randint(-4, 4) / 4, rng.randint(-4, 4) / 4, rng.randint(-2, 2) / 4)
+        ax = (rng.randint(1, 3), rng.randint(-3, 3), rng.randint(1, 3))          # neither in the plane nor along e_z
+        nrm = (rng.randint(1, 3), rng.randint(-3, 3), rng.randint(1, 3))
+        th = rng.choice([23.0, 67.5, 141.0, 250.0])
+        dz = rng.choice([-1.25, 0.7, 2.5])
+        T = lambda t: ("Translate", t, np.eye(3), np.array(t, float))                                               # noqa: E731
+        Rq = rodrigues(ax, np.deg2rad(th))
+        R = ("Rotate", (th, c, ax), Rq, np.array(c) - Rq @ np.array(c))
+        Sq = reflection(nrm)
+        S = ("Symmetry", (c, nrm), Sq, np.array(c) - Sq @ np.array(c))
+        return [[T((0.3, -0.2, dz)), T((-1.0, 0.5, -0.25))], [T((0.0, 0.0, dz)), R, S], [R, T((0.5, 0.25, -1.5))], [S, T((0.0, 0.0, dz)), R]]
+
+    used_types = (["SEG2", "SEG3", "TRI3", "TRI6", "QUAD4", "QUAD8"] if not thorough else M.SEG + M.ALL_2D)
+    uses = ["measure and center", "normals", "point evaluation"]
+    for et in used_types:
+        dim_ = M.dim_of(et)
+        where = "plane" if dim_ == 2 else "line"
+        for ic, chain in enumerate(chains(dim_)):
+            for how in (uses if thorough else [uses[(ic + used_types.index(et)) % 3], uses[(ic + used_types.index(et) + 1) % 3]]):
+                ident = dict(elemType=et, first_use=how, steps=[f"mesh.{nm}{tuple(a)}" for nm, a, _, _ in chain],
+                             mesh="polygon POLYGONS[0] h=1.2" if et in M.TRI else "rectangle 2 x 1 h=0.7" if dim_ == 2 else "segment [0, 4] on the x axis, 4 elements")
+                res.count("used-then-moved-out")
+                try:
+                    if dim_ == 1:
+                        mesh = M.mesh_1d(et)
+                        meas0, c0 = 4.0, np.array([2.0, 0.0, 0.0])
+                    elif et in M.TRI:
+                        mesh = M.mesh_2d(et, polygon=POLYGONS[0], h=1.2)
+                        meas0, c0 = shoelace(POLYGONS[0])
+                        meas0 = abs(meas0)
+                    else:
+                        mesh = M.mesh_2d(et, 2.0, 1.0, 0.7)
+                        meas0, c0 = 2.0, np.array([1.0, 0.5, 0.0])
+                    X0 = np.array(mesh.coord, float)
+                    first_use(mesh, how, dim_)
+                except Exception as ex:  # noqa: BLE001
+                    res.fail(f"first use of a mesh raises elem={et}", f"{how}: {type(ex).__name__}: {str(ex)[:150]}", ident)
+                    continue
+                Qc, tc = np.eye(3), np.zeros(3)
+                pdeg = ORDER[et]
+                for istep, (nm, a, Qs, ts) in enumerate(chain):
+                    Qc, tc = Qs @ Qc, Qs @ tc + ts
+                    sid = dict(ident, failing_step=istep + 1)
+                    res.case((et, how, ic, istep, "used then moved out"))
+                    try:
+                        if nm == "Translate":
+                            mesh.Translate(*a)
+                        elif nm == "Rotate":
+                            mesh.Rotate(*a)
+                        else:
+                            mesh.Symmetry(*a)
+                        Xw_ = X0 @ Qc.T + tc
+                        if not (np.abs(np.asarray(mesh.coord) - Xw_).max() <= 1e-10):
+                            res.fail(f"mesh mover {nm}", f"nodes moved by up to {np.abs(np.asarray(mesh.coord) - Xw_).max():.2e} away from the transformation", sid)
+                            break
+                        ref_mesh = fresh_of(mesh)
+                        meas = float(mesh.area if dim_ == 2 else mesh.length)
+                        cen = np.asarray(mesh.center, float)
+                        bad = None
+                        if not (abs(meas - meas0) <= 1e-9 * meas0):
+                            bad = ("measure", f"measure {meas} after step {istep + 1} ({nm}), exact {meas0}")
+                        elif not (np.abs(cen - (Qc @ c0 + tc)).max() <= 1e-9):
+                            bad = ("center", f"center {cen.tolist()} after step {istep + 1} ({nm}), exact {(Qc @ c0 + tc).tolist()}")
+                        for gm, gr in zip(mesh.dict_groupElem.values(), ref_mesh.dict_groupElem.values()):
+                            if bad is not None or gm.dim == 0:
+                                continue
+                            wm, wr = np.asarray(gm.Get_weightedJacobian_e_pg("mass")), np.asarray(gr.Get_weightedJacobian_e_pg("mass"))
+                            xm, xr = np.asarray(gm.Get_GaussCoordinates_e_pg("mass")), np.asarray(gr.Get_GaussCoordinates_e_pg("mass"))
+                            if not (np.abs(wm - wr).max() <= 1e-9 * np.abs(wr).max()):
+                                bad = ("weighted jacobians", f"group {gm.elemType}: weighted Jacobians differ by {np.abs(wm - wr).max():.2e} from those of a fresh mesh built at the final position")
+                            elif not (np.abs(xm - xr).max() <= 1e-9):
+                                bad = ("gauss points", f"group {gm.elemType}: Gauss point coordinates differ by {np.abs(xm - xr).max():.2e} from those of a fresh mesh built at the final position")
+                            elif gm.dim == dim_:
+                                n_m, n_r = np.asarray(gm.Get_normals_e_pg("mass")), np.asarray(gr.Get_normals_e_pg("mass"))
+                                if not (np.abs(n_m - n_r).max() <= 1e-9):
+                                    bad = ("normals", f"group {gm.elemType}: normals differ by {np.abs(n_m - n_r).max():.2e} from those of a fresh mesh built at the final position")
+                                elif dim_ == 2 and not (np.abs(np.abs(n_m @ Qc[:, 2]) - 1).max() <= 1e-9):
+                                    bad = ("normals", "the normals of the moved plane surface are not ± Q e_z")
+                        if bad is not None:
+                            res.fail(f"used mesh moved out of its {where}: {bad[0]}", f"{et}, first use = {how}: {bad[1]}", sid)
+                            break
+                        g = mesh.Get_list_groupElem(dim_)[0]
+                        p = Poly(rng, pdeg, 3)
+                        vals = p(np.asarray(mesh.coord))
+                        pts, kinds = sample_points(mesh, g, rng, 4)
+                        want = p(pts)
+                        got = np.asarray(mesh.Evaluate_dofsValues_at_coordinates(pts, vals)).ravel()
+                        one = np.array([np.asarray(mesh.Evaluate_dofsValues_at_coordinates(pts[i:i + 1], vals)).ravel()[0] for i in range(len(pts))])
+                        fre = np.asarray(ref_mesh.Evaluate_dofsValues_at_coordinates(pts, vals)).ravel()
+                    except Exception as ex:  # noqa: BLE001
+                        res.fail(f"used mesh moved out of its {where}: raises", f"{et}, first use = {how}, step {istep + 1} ({nm}): {type(ex).__name__}: {str(ex)[:150]}", sid)
+                        break
+                    stop = False
+                    for qn, arr in (("batch", got), ("single", one)):
+                        err = np.abs(arr - want) / (1 + np.abs(want).max())
+                        if not (err.max() <= 1e-8):
+                            i = int(np.nanargmax(err)) if np.isfinite(err).any() else 0
+                            errf = np.abs(fre - want).max() / (1 + np.abs(want).max())
+                            res.fail(f"used mesh moved out of its {where}: point evaluation", f"{et}, first use = {how}, after step {istep + 1} ({nm}): degree-{pdeg} field at a located {kinds[i]} point ({qn} query) is {arr[i]} instead of {want[i]} "
+                                     f"(relative error {err.max():.2e}; a fresh mesh built at the final position: {errf:.2e})", dict(sid, degree=pdeg, point=pts[i].tolist()))
+                            stop = True
+                            break
+                    if stop:
+                        break
+
     answers = driver.ask(lines)
     if answers is None:
         res.disagree("driver", "model driver does not run: " + getattr(driver, "error", "")[:400])
